@@ -31,6 +31,7 @@ structure DSt where
   pats : Array PatInfo := #[]
   ms : Array Mat := #[]
   tags : Array Tag := #[]
+  err : Option String := none
 
 def parseCap (s : String) : Option Cap :=
   match (s.splitOn ",").map nat with
@@ -57,23 +58,25 @@ def runCase (s : DSt) : String :=
   let cfg := mkCfg s.names s.tagsFrom s.pats
   let ms := s.ms.toList
   let real := s.tags.toList
-  let variants : List Variant := [{}, { drainSkips := true }, { lossyFixed := true }, { drainSkips := true, lossyFixed := true }]
+  let variants : List Variant := (List.range 8).map (fun i =>
+    { drainSkips := i % 2 == 1, lossyFixed := (i / 2) % 2 == 1, multiRowFixed := (i / 4) % 2 == 1 })
   let diffs := variants.map (fun v => diffTags (runTags v cfg s.src ms) real 0)
   let corr := match diffs.head? with
     | some none => "ok"
     | some (some d) => s!"DIFF:{d}"
     | none => "?"
   let vars := String.ofList (diffs.map (fun d => if d.isNone then '1' else '0'))
-  let verdicts := real.map (judgeTag s.src)
+  let verdicts := real.map (judgeTagM s.src cfg ms)
   let fails := verdicts.filterMap (fun v => match v with | .fail c m => some s!"FAIL:{c}:{m}" | _ => none)
   let lossy := verdicts.filterMap (fun v => match v with | .lossy m => some m | _ => none)
   let skipped := (verdicts.filter (fun v => match v with | .skip _ => true | _ => false)).length
   let ord := judgeOrder (real.filter (!·.isIgnored))
   let docsBad := (real.filter (fun t => !t.isIgnored && !judgeDocs cfg s.src ms t)).length
-  let j := match fails, ord with
-    | f :: _, _ => f.replace " " "_"
-    | [], some o => s!"FAIL:order:{o}".replace " " "_"
-    | [], none => if docsBad > 0 then s!"FAIL:docs:{docsBad}_tags" else "ok"
+  let j := match s.err, fails, ord with
+    | some e, _, _ => s!"FAIL:error:generate_tags_failed_or_panicked:{e}".replace " " "_"
+    | none, f :: _, _ => f.replace " " "_"
+    | none, [], some o => s!"FAIL:order:{o}".replace " " "_"
+    | none, [], none => if docsBad > 0 then s!"FAIL:docs:{docsBad}_tags" else "ok"
   let (multi, na) := stats s.src real
   let lz := match lossy with
     | [] => "-"
@@ -94,19 +97,21 @@ def step (s : DSt) (line : String) : IO DSt := do
     match parseTag ws with
     | some t => return { s with tags := s.tags.push t }
     | none => IO.println s!"{s.id} corr=BADINPUT judge=BADINPUT"; return s
+  | "tagerr" :: ws => return { s with err := some (" ".intercalate ws) }
   | ["run"] => IO.println (runCase s); return s
   | ["u16", id, h, real] =>
     let b := unhex h
     let m := utf16Len b
     let spec := utf16Spec b
-    let vars := (if m == nat real then "11" else "00") ++ (if spec == nat real then "11" else "00")
+    let half := (if m == nat real then "11" else "00") ++ (if spec == nat real then "11" else "00")
+    let vars := half ++ half
     IO.println s!"{id} kind=u16 corr={if m == nat real then "ok" else s!"DIFF:model={m},real={real}"} vars={vars} spec={if spec == nat real then "ok" else "differs"} valid={if validUtf8 b then 1 else 0}"
     return s
   | ["lr", id, h, sb, col, lim, rs, re] =>
     let b := unhex h
     let r := lineRange b (nat sb) (nat col) (nat lim)
     let okc := r.s == nat rs && r.e == nat re
-    IO.println s!"{id} kind=lr corr={if okc then "ok" else s!"DIFF:model=[{r.s},{r.e}),real=[{rs},{re})"} vars={if okc then "1111" else "0000"}"
+    IO.println s!"{id} kind=lr corr={if okc then "ok" else s!"DIFF:model=[{r.s},{r.e}),real=[{rs},{re})"} vars={if okc then "11111111" else "00000000"}"
     return s
   | _ => return s
 
